@@ -17,7 +17,7 @@ from vf.worker import R
 PROPERTY = "C30"
 LEVEL = "exploration"
 RULE = ("case = (suspender class, thresholds/band/expected value incl. 0, 0.0, negative, '' and False, value sequence of "
-        "1..12 values drawn around the thresholds); after every value: tripped == latch, #request_suspend == #untripped->"
+        "1..12 values drawn around the thresholds, with remove()+install() of the same suspender between two values in 10% of the positions (removal releases the current trip, installation replays the current value)); after every value: tripped == latch, #request_suspend == #untripped->"
         "tripped transitions, the asyncio event of every finished trip is set and the current trip's is not, and the "
         "class's two predicates are not both true; distinct = (class, parameter pattern, sequence shape = string of "
         "S/R/N decisions); non-trivial = sequence contains at least one trip")
@@ -25,7 +25,7 @@ ASSUMPTIONS = ["documented predicates: Floor suspends on v < s and resumes on v 
                "ambiguous), Ceil mirrored, bands are open intervals, WhenChanged resumes only with allow_resume",
                "values are not NaN", "sleep=0"]
 REQUIRED_COUNTERS = {"steps_checked": 2000, "trips": 200, "releases": 100, "falsy_param_cases": 20,
-                     "predicate_pairs_checked": 1000}
+                     "predicate_pairs_checked": 1000, "reinstalls": 100}
 MANIFEST = {
     "technique": "reference latch (documented predicates) vs real suspender objects driven through a fake signal from a "
                  "foreign thread, stub engine recording request_suspend and release events",
@@ -153,17 +153,33 @@ def run_case(case):
         T = False
         reqs = 0
         seq = [init] + [rng.choice(pool) for _ in range(rng.randint(0, 11))]
+        # "reinstall" entries: remove() then install() again while the signal keeps its value (the value is replayed)
+        REINSTALL = ("reinstall",)
+        seq = [x for v in seq for x in ([v, REINSTALL] if rng.random() < 0.1 else [v])]
+        cur_v = init
         shape = ""
         problem = None
         counters = {"falsy_param_cases": int(falsy), "steps_checked": 0, "trips": 0, "releases": 0,
-                    "predicate_pairs_checked": 0}
+                    "predicate_pairs_checked": 0, "reinstalls": 0}
         finished_events = []
         current_event_idx = None
         for step, v in enumerate(seq):
             if step == 0:
                 sus.install(stub)
+            elif v is REINSTALL:
+                sus.remove()
+                _flush(loop)
+                # removal ends the current trip: its waiters are released
+                if T:
+                    finished_events.append(current_event_idx)
+                    current_event_idx = None
+                T = False
+                counters["reinstalls"] += 1
+                sus.install(stub)
+                v = cur_v
             else:
                 sig.put(v)
+            cur_v = v
             _flush(loop)
             if sus_pred(v):
                 if not T:
